@@ -76,6 +76,7 @@ structure BInv (done : List Action) (b : Builder) : Prop where
     ∃ acct amount useUnc, Action.spend acct o.asset amount useUnc ∈ done ∧
       ∃ u ∈ b.ins, u.account = acct ∧ u.prog = o.prog ∧ u.asset = o.asset
   insrc : ∀ u ∈ b.ins, ∃ acct amount useUnc, Action.spend acct u.asset amount useUnc ∈ done ∧ u.account = acct
+  pos : ∀ o ∈ b.outs, 0 < o.amount
 
 theorem binv_empty : BInv [] ⟨[], [], []⟩ := by
   constructor <;> simp [ofAssetIn, ofAssetOut, recvReq, spendReq, reqOuts, amounts]
@@ -107,6 +108,11 @@ theorem buildAction_inv (sortFn : List Utxo → List Utxo) (hperm : ∀ l, (sort
     · intro u hu
       obtain ⟨ac, am, uu, hm, h1⟩ := hb.insrc u hu
       exact ⟨ac, am, uu, List.mem_append_left _ hm, h1⟩
+    · intro o ho
+      simp only [List.mem_append, List.mem_singleton] at ho
+      rcases ho with ho | rfl
+      · exact hb.pos o ho
+      · simp only [Bool.or_eq_true, beq_iff_eq, not_or] at c1; show 0 < amount; omega
   | retire asset amount =>
     simp only [buildAction] at h
     split_ifs at h with c1 c2
@@ -130,6 +136,11 @@ theorem buildAction_inv (sortFn : List Utxo → List Utxo) (hperm : ∀ l, (sort
     · intro u hu
       obtain ⟨ac, am, uu, hm, h1⟩ := hb.insrc u hu
       exact ⟨ac, am, uu, List.mem_append_left _ hm, h1⟩
+    · intro o ho
+      simp only [List.mem_append, List.mem_singleton] at ho
+      rcases ho with ho | rfl
+      · exact hb.pos o ho
+      · simp only [beq_iff_eq] at c1; show 0 < amount; omega
   | spend acct asset amount useUnc =>
     simp only [buildAction] at h
     by_cases h0 : (amount == 0) = true
@@ -187,6 +198,11 @@ theorem buildAction_inv (sortFn : List Utxo → List Utxo) (hperm : ∀ l, (sort
                     exact ⟨ac, am, uu, List.mem_append_left _ hm, h1⟩
                   · have := hallc u hu
                     exact ⟨acct, amount, useUnc, by simp [this.1], this.2⟩
+                · intro o ho
+                  simp only [List.mem_append, List.mem_singleton] at ho
+                  rcases ho with ho | rfl
+                  · exact hb.pos o ho
+                  · exact hchg
           · -- no change
             simp only [hchg, if_false, Prod.mk.injEq, and_true] at h
             subst h
@@ -211,6 +227,7 @@ theorem buildAction_inv (sortFn : List Utxo → List Utxo) (hperm : ∀ l, (sort
                 exact ⟨ac, am, uu, List.mem_append_left _ hm, h1⟩
               · have := hall u hu
                 exact ⟨acct, amount, useUnc, by simp [this.1], this.2⟩
+            · intro o ho; exact hb.pos o ho
       · -- Reserve did not succeed: the action reports an error
         exfalso
         cases hres : reserveWith sortFn s.1 acct asset amount useUnc 0 exp with
